@@ -345,6 +345,40 @@ def run(ctx):
             ctx.ob("C08.length-forms", returns, "From<Value> for Duration: a TIME whose sign byte is set (a negative TIME, legal on the wire) only reaches a diverging branch (unimplemented!/panic): the conversion panics",
                    fn=b.path, construct="negative-time", where=b.where(bb), sample={"rule": "length-forms/sign", "returns_on_negative": returns})
         ctx.floor("C08.length-forms", "tests of the TIME sign byte", nsign, 1)
+        # the fields of a TIME value become the Duration the client sent: seconds = days*86400 + hours*3600 + minutes*60 + seconds,
+        # nanoseconds = microseconds * 1000 (each field read once from the value, scaled once)
+        ndur = 0
+        for q in enumerate_paths(b, max_visits=1, limit=20000):
+            if q.end != "return":
+                continue
+            for pos, blk, t in q.calls():
+                if not cname(t["func"]).endswith("time::Duration::new"):
+                    continue
+                secs, nanos = q.arg(pos, 0), q.arg(pos, 1)
+                def _scale(term):
+                    """{width of the read: coefficient} for an affine combination of cursor reads, else None"""
+                    a = T.affine(term)
+                    if a is None or a.c != 0:
+                        return None
+                    out = {}
+                    for atom, k in a.m.items():
+                        txt = repr(atom)
+                        n32, n8 = txt.count("ReadBytesExt::read_u32"), txt.count("ReadBytesExt::read_u8")
+                        if n32 + n8 != 1:
+                            return None     # not exactly one field of the value
+                        w = 4 if n32 else 1
+                        out.setdefault(w, []).append(k)
+                    return {w: sorted(v) for w, v in out.items()}
+                sc = _scale(secs)
+                nn = _scale(nanos) if not T.is_const_int(nanos, 0) else {}
+                ok_s = sc == {4: [86400], 1: [1, 60, 3600]}
+                ok_n = nn in ({}, {4: [1000]})
+                ndur += 1
+                ctx.ob("C08.length-forms", ok_s and ok_n,
+                       "From<Value> for Duration builds Duration::new(%s, %s): need days*86400 + hours*3600 + minutes*60 + seconds and microseconds*1000 (found scales %s / %s)"
+                       % (term_str(secs)[:70], term_str(nanos)[:60], sc, nn), fn=b.path, construct="time-fields", where=b.where(blk),
+                       sample={"rule": "length-forms/time-fields", "seconds": sc, "nanos": nn})
+        ctx.floor("C08.length-forms", "Duration::new sites in the TIME converter", ndur, 1)
 
     # what the shim is handed is what the reader reassembled: the inbound reassembly clauses (C01's rules: window
     # invariant, parse-before-wait, short-is-not-error, framing constants) are part of `verbatim` / `exactly what the client sent`
